@@ -31,6 +31,7 @@ func (*C15) Plan(tier string) orch.Plan {
 }
 
 var c15StdLevels = []int{-4, 0, 4, 8}
+
 // names of the four standard log/slog levels (for messages) and their namesakes among logg's levels
 var c15StdName = map[int]string{-4: "debug", 0: "info", 4: "warn", 8: "error"}
 var c15Namesake = map[int]int{-4: model.Debug, 0: model.Info, 4: model.Warn, 8: model.Error}
@@ -42,6 +43,7 @@ func c15Want(run *orch.Run, std int) string {
 	}
 	return ""
 }
+
 var c15StdSev = map[int]int{-4: model.Debug, 0: model.Info, 4: model.Warn, 8: model.Error}
 
 type c15Gen struct {
